@@ -6,20 +6,21 @@
    fresh_ok / load_ok of the theorems, not built into the model).
    Positional fragments are abstract (constructor FPos): their resolution is Model/Fragment.v's subject.
    Two switches (record variant): the loader sets obj._internal_id (HEAD, XMI always did, JSON since fix 3401449)
-   or not (the JSON loader before that fix); _assign_uuid registers the drawn id in uuid_dict or not (HEAD: not). *)
+   or not (the JSON loader before that fix); _assign_uuid registers the drawn id in the uuid_dict of the object's
+   resource (HEAD since fix 330f52e) or not (before it). *)
 From Coq Require Import ZArith List Bool.
 Import ListNotations.
-Open Scope Z_scope.
+Local Open Scope Z_scope.
 
 Definition obj := nat.
 
 Record variant := mkVariant {
   loader_sets_internal : bool;   (* xmi.py:111,276  json.py:211  `obj._internal_id = value` *)
-  assign_registers : bool        (* resource.py:625-631 _assign_uuid does not touch uuid_dict: false on HEAD *)
+  assign_registers : bool        (* resource.py _assign_uuid: `obj.eResource.uuid_dict[uuid] = obj` (fix 330f52e) *)
 }.
-Definition head := mkVariant true false.
-Definition old_json := mkVariant false false.
-Definition registering := mkVariant true true.
+Definition head := mkVariant true true.              (* the code as it is *)
+Definition before_330f52e := mkVariant true false.   (* _assign_uuid did not touch uuid_dict *)
+Definition old_json := mkVariant false false.        (* JSON loader before 3401449 (and before 330f52e) *)
 
 Record state := mkState {
   members : list obj;            (* the objects under the roots of the resource (tree order) *)
@@ -144,7 +145,8 @@ Inductive op :=
 | Add (o : obj)                          (* o joins the tree: Resource.append (:633-653) / a containment add *)
 | Remove (o : obj)                       (* Resource.remove (:655-657) / a containment removal: uuid_dict is kept *)
 | SetIdAttr (o : obj) (t : option Z)     (* obj.key = ... after the load: uuid_dict is not told *)
-| Ref (o : obj)                          (* a reference to o is written from another resource (:565-573) *)
+| Ref (o : obj)                          (* a reference to o is written from another resource (:565-573:
+                                            `if obj.eResource: ...`: nothing happens for an object outside) *)
 | SetUuid (b : bool).                    (* resource.use_uuid = b *)
 
 Definition step (v : variant) (s : state) (a : op) : state :=
@@ -157,7 +159,7 @@ Definition step (v : variant) (s : state) (a : op) : state :=
              else mkState (members s ++ [o]) (internal s) (dict s) (idattr s) (use_uuid s) (next_fresh s)
   | Remove o => mkState (remove_obj o (members s)) (internal s) (dict s) (idattr s) (use_uuid s) (next_fresh s)
   | SetIdAttr o t => mkState (members s) (internal s) (dict s) (upd (idattr s) o t) (use_uuid s) (next_fresh s)
-  | Ref o => fst (fragment_step v s o)
+  | Ref o => if mem o (members s) then fst (fragment_step v s o) else s
   | SetUuid b => mkState (members s) (internal s) (dict s) (idattr s) b (next_fresh s)
   end.
 
